@@ -156,9 +156,13 @@ func (c *tcase) run(r *vcore.Run) {
 			o = c.rn.RunPlonk(c.plk)
 		}
 	}()
+	wd := caseWatchdog
+	if (c.g16 != nil && c.g16.engine != "test") || (c.plk != nil && c.plk.engine != "test") {
+		wd = 5 * caseWatchdog // includes (waiting for) the compilation of the outer circuit
+	}
 	select {
 	case <-done:
-	case <-time.After(caseWatchdog):
+	case <-time.After(wd):
 		r.Inconclusive("incircuit-evaluation-watchdog")
 		r.Count(pre+"incircuit.watchdog", 1)
 		r.SampleClass("watchdog", c.replay())
@@ -224,6 +228,8 @@ func (c *tcase) run(r *vcore.Run) {
 	}
 }
 
+// caseWatchdog bounds one in-process evaluation (typical: 0.2-20 s; under the
+// heaviest machine load seen: 4 min).  Expiry is inconclusive, never a violation.
 var caseWatchdog = 12 * time.Minute
 
 // ------------------------------------------------------------------ plan
